@@ -211,15 +211,16 @@ func (c *FnCtx) builtin(st *State, name string, call *ast.CallExpr) []Val {
 			n, nn := c.toIndex(c.eval(st, call.Args[1]), call.Args[1].Pos())
 			n = c.define("mklen", S64, n)
 			cp := n
-			conds := []string{nn, app("bvsle", n, maxLen)}
+			conds := []string{nn}
 			if len(call.Args) > 2 {
 				var cn string
 				cp, cn = c.toIndex(c.eval(st, call.Args[2]), call.Args[2].Pos())
 				cp = c.define("mkcap", S64, cp)
-				conds = append(conds, cn, app("bvsle", n, cp), app("bvsle", cp, maxLen))
+				conds = append(conds, cn, app("bvsle", n, cp))
 			}
 			c.oblige(st, "make", call.Pos(), and(conds...), "make: length/capacity out of range")
-			c.assume(st, and(app("=", s.Len, n), app("=", s.Cap, cp)))
+			c.assume(st, and(app("=", s.Len, n), app("=", s.Cap, cp), app("bvsle", cp, allocMax)))
+			c.assumptions["allocation never fails: a successful make/append yields at most 2^48 elements"] = true
 			s.Nil = ""
 			return []Val{s}
 		}
@@ -306,7 +307,7 @@ func (c *FnCtx) appendCall(st *State, call *ast.CallExpr) Val {
 		r.Leaves = nl
 		r.Len = newLen
 		r.Cap = c.fresh("appcap", S64)
-		c.assume(st, and(app("bvsle", newLen, r.Cap), app("bvsle", b.Cap, r.Cap), app("bvsle", r.Cap, maxLen)))
+		c.assume(st, and(app("bvsle", newLen, r.Cap), app("bvsle", b.Cap, r.Cap), app("bvsle", r.Cap, allocMax)))
 		r.Nil = and(b.nilTerm(), app("=", src.Len, bvInt(0, 64)))
 		if r.Nil == "false" {
 			r.Nil = ""
@@ -322,7 +323,7 @@ func (c *FnCtx) appendCall(st *State, call *ast.CallExpr) Val {
 	}
 	cur.Len = c.define("applen", S64, app("bvadd", b.Len, bvInt(int64(n), 64)))
 	cur.Cap = c.fresh("appcap", S64)
-	c.assume(st, and(app("bvsle", cur.Len, cur.Cap), app("bvsle", b.Cap, cur.Cap), app("bvsle", cur.Cap, maxLen)))
+	c.assume(st, and(app("bvsle", cur.Len, cur.Cap), app("bvsle", b.Cap, cur.Cap), app("bvsle", cur.Cap, allocMax)))
 	if n > 0 {
 		cur.Nil = ""
 	}
@@ -410,8 +411,18 @@ func (c *FnCtx) callPkg(st *State, key string, call *ast.CallExpr) []Val {
 			args = append(args, rv)
 		}
 	}
-	for _, a := range call.Args {
-		args = append(args, c.copyVal(c.eval(st, a)))
+	var psig *types.Signature
+	if fd := c.prog.Funcs[key]; fd != nil {
+		if fobj, ok := c.prog.Info.Defs[fd.Name].(*types.Func); ok {
+			psig = fobj.Type().(*types.Signature)
+		}
+	}
+	for i, a := range call.Args {
+		v := c.copyVal(c.eval(st, a))
+		if psig != nil && i < psig.Params().Len() && isNilVal(v) {
+			v = c.zeroVal(psig.Params().At(i).Type(), "nilarg")
+		}
+		args = append(args, v)
 	}
 	if ct == nil {
 		c.assumptions["call to "+key+" has no contract: results arbitrary, assumed not to panic or modify tracked state"] = true
@@ -469,8 +480,11 @@ func (c *FnCtx) applyContract(st *State, ct *Contract, key string, args []Val, c
 		c.visitsPre[key]++
 		c.oblige(st, "pre", pos, gs.T, fmt.Sprintf("precondition %d of %s: %s", k+1, key, rq.Text))
 	}
-	// pointer arguments: the callee may modify the pointee
+	// pointer arguments: the callee may modify the pointee (unless its contract says `pure`, which is checked)
 	for _, a := range args {
+		if ct.Pure {
+			break
+		}
 		if p, ok := a.(*PtrVal); ok {
 			if cv, ok := st.cells[p.Cell]; ok {
 				st.cells[p.Cell] = c.havocLike(st, cv, sanitize(key)+"_cell")
@@ -507,6 +521,9 @@ func (c *FnCtx) applyContract(st *State, ct *Contract, key string, args []Val, c
 	}
 	penv := &CEnv{vars: post, old: pre, oldV: vars, lemma: env.lemma}
 	for _, en := range ct.Ensures {
+		if mentionsAny(en.Expr, ct.Ghosts) {
+			continue // clauses about the callee's ghost locals are not visible to callers
+		}
 		g := c.ce(st, en.Expr, penv, nil)
 		if gs, ok := g.(SV); ok && gs.S.K == KBool {
 			c.assume(st, gs.T)
@@ -699,4 +716,18 @@ func (c *FnCtx) ioCall(st *State, name string, call *ast.CallExpr) []Val {
 		}
 	}
 	return []Val{SV{n, S64, true}, SV{err, SBool, false}}
+}
+
+func mentionsAny(e ast.Expr, names []string) bool {
+	if len(names) == 0 {
+		return false
+	}
+	hit := false
+	ast.Inspect(e, func(n ast.Node) bool {
+		if id, ok := n.(*ast.Ident); ok && contains(names, id.Name) {
+			hit = true
+		}
+		return !hit
+	})
+	return hit
 }
